@@ -76,7 +76,7 @@ pub fn export_strategy() -> BoxedStrategy<Export> {
             // a fee that eats the whole proceeds: net cash exactly zero
             if (x >> 7) % 16 == 0 && (kind == "SELL" || kind == "LIQ") && !gross.is_zero() { c = gross.normalize().to_string(); }
             match kind {
-                "BUY" | "DIS" => { let mut v = base(kind, symbols[sym]); let price = if kind == "DIS" { "0".to_string() } else { p.clone() }; let comm = if kind == "DIS" && (x >> 4) % 3 != 0 { "0".to_string() } else { format!("-{c}") }; v.extend(vec![("Quantity", q.clone()), ("Price", price), ("Gross Amount", format!("-{}", gross.normalize())), ("Commission", comm), ("Net Amount", format!("-{}", gross.normalize()))]); rows.push(mk(v)); }
+                "BUY" | "DIS" => { let mut v = base(kind, symbols[sym]); let price = if kind == "DIS" && (x >> 9) % 4 != 0 { "0".to_string() } else { p.clone() }; /* a distribution usually has price 0, not always */ let comm = if kind == "DIS" && (x >> 4) % 3 != 0 { "0".to_string() } else { format!("-{c}") }; v.extend(vec![("Quantity", q.clone()), ("Price", price), ("Gross Amount", format!("-{}", gross.normalize())), ("Commission", comm), ("Net Amount", format!("-{}", gross.normalize()))]); rows.push(mk(v)); }
                 "SELL" | "LIQ" => { let mut v = base(kind, symbols[sym]); v.extend(vec![("Quantity", format!("-{q}")), ("Price", p.clone()), ("Gross Amount", gross.normalize().to_string()), ("Commission", format!("-{c}")), ("Net Amount", gross.normalize().to_string())]); rows.push(mk(v)); }
                 // dividends, and now and then a reversal (negative amount)
                 "DIV" => { let mut v = base("DIV", symbols[sym]); v.extend(vec![("Quantity", "0".to_string()), ("Price", "0".to_string()), ("Gross Amount", "0".to_string()), ("Commission", "0".to_string()), ("Net Amount", if (x >> 5) % 4 == 0 { format!("-{}", d2(px, 2)) } else { d2(px, 2) })]); v.retain(|k| k.0 != "Activity Type"); v.push(("Activity Type", "Dividends".to_string())); rows.push(mk(v)); }
